@@ -148,3 +148,42 @@ def report(prog: Program, rep: Report, rule: str, what: str) -> None:
     if dom.pairings < 20:
         raise AnalysisError(f"index-space analysis saw only {dom.pairings} element-wise pairings (about 60 expected): entry points not reached")
     rep.ok(rule, " + ".join(entries), f"{dom.pairings} element-wise pairings in {len(visited)} functions share one particle list ({what})", "", "ladim/tracker.py")
+
+
+def argument_order(prog: Program, rep: Report, rule: str) -> None:
+    """Same-named arguments bind to same-named parameters: where a call inside the package passes plain
+    variables whose names are also parameter names of the function it reaches (X, Y, Z, force, grid, timer, ...),
+    each must stand at the position of the parameter of that name. `advect(Y, X, Z, force)` type-checks, runs, and
+    samples the current of the transposed position."""
+    from .. import statefx
+
+    n = 0
+    for fi in prog.all_functions():
+        if fi.module.name in statefx.SKIP_MODULES or fi.module.name.startswith("ibms"):
+            continue
+        try:
+            env = prog.type_env(fi)
+        except AnalysisError:
+            env = {}
+        for c in ast.walk(fi.node):
+            if not isinstance(c, ast.Call) or len(c.args) < 2 or any(isinstance(a, ast.Starred) for a in c.args):
+                continue
+            try:
+                targets = prog.resolve_call(fi, c, env)
+            except AnalysisError:
+                targets = []
+            if not targets and isinstance(c.func, ast.Attribute) and unparse(c.func) == "self.advect":
+                targets = [prog.func(f"{fi.module.name}.{fi.cls}.{nm}") for nm in prog.dynamic_attr_names(fi, "advect")]
+            for g in targets:
+                params = [p_ for p_ in g.params if p_ not in ("self", "cls")]
+                if g.name == "__init__":
+                    continue
+                given = [(i, a.id) for i, a in enumerate(c.args) if isinstance(a, ast.Name)]
+                common = [(i, nm) for i, nm in given if nm in params]
+                if len(common) < 2:
+                    continue
+                n += 1
+                wrong = [(nm, i, params.index(nm)) for i, nm in common if params.index(nm) != i]
+                rep.check(rule, fi.qual, f"{short(c, 70)} -> {g.qual}({', '.join(params[:5])}{', ...' if len(params) > 5 else ''})", not wrong, what_bad="; ".join(f"`{nm}` is passed at position {i + 1} but is parameter {j + 1} of the callee" for nm, i, j in wrong) + ": the callee works on exchanged values", what_ok="by position = by name", loc=fi.loc(c))
+    if n < 10:
+        raise AnalysisError(f"only {n} calls with same-named arguments found (about 25 expected)")
